@@ -632,6 +632,9 @@ pub fn c11(ctx: &Ctx) -> Report {
         let m = LfoM::new(fs, vec![0.0, 1.0, fs / 16777216.0, fs / 4.0, fs * 0.999, fs, fs / 16777216.0 * 1000.7, fs / 16777216.0 * 1001.2], vec![0.0, 0.25, 0.999_999_9, 0.999_999_94, -0.3, 7.5, -1.0e10]);
         explore(m, &ExploreCfg { max_depth: Some(d), state_cap: 50_000_000, threads: ctx.threads, label: format!("lfo histories fs={} depth {}", fs, d) }, &mut rep, &["C11"]);
     }
+    if ctx.tier.is_thorough() {
+        key_selfcheck(LfoM::new(1000.0, vec![0.0, 1.0, 250.0], vec![0.0, 0.25, -0.3]), 200_000, &mut rep, "lfo history machine");
+    }
     rep.nontrivial = rep.counters.get("finite_patterns").copied().unwrap_or(0) + rep.counters.get("grid_ticks_nonzero_advance").copied().unwrap_or(0) + rep.counters.get("ticks").copied().unwrap_or(0);
     rep.require_nonzero("finite_patterns");
     rep.require_nonzero("negative_patterns");
